@@ -56,6 +56,29 @@ func runMigration(c *core.Ctx) {
 		}
 		nIns++
 		newKey = mu.Key
+		// the key registered is the PRESENT raw name of the new type: TypeKey(getFullTypeName(newType)). GetTypeKey
+		// would apply the registry itself, so a type that already has a migration resolves to its old name, the
+		// duplicate check never fires and a second registration silently re-targets the type
+		rawKey := false
+		kv := mu.Key
+		for i := 0; i < 3; i++ {
+			switch x := kv.(type) {
+			case *ssa.Convert:
+				kv = x.X
+				continue
+			case *ssa.ChangeType:
+				kv = x.X
+				continue
+			}
+			break
+		}
+		if call, isCall := kv.(*ssa.Call); isCall && sx.Callee(call) != nil && sx.Callee(call).Name() == "getFullTypeName" && len(call.Call.Args) == 1 {
+			if pp, isP := call.Call.Args[0].(*ssa.Parameter); isP && pp.Parent() == rtm {
+				rawKey = true
+			}
+		}
+		c.Check(rawKey, "errbase.RegisterTypeMigration: key of the new type", mu.Pos(), "TypeKey(getFullTypeName(newType)): the present raw name",
+			"the key under which the new type is registered is not its present raw type name (e.g. GetTypeKey, which already applies migrations): for a type that already has a migration the duplicate check never fires and the type is silently re-targeted")
 		lits := dominatingLits(mu.Block())
 		ok2 := false
 		for _, l := range lits {
@@ -755,6 +778,37 @@ func runGrpcFlow(c *core.Ctx) {
 			}
 		}
 		visit(v, 0)
+		// a return that yields the invoker's error and nothing else is the 'no encoded error found' outcome: it must
+		// come after the details were looked at, i.e. under the test that nothing was decoded
+		if okAll {
+			onlyInvoker := identity(v) == ssa.Value(icall) || v == ssa.Value(icall)
+			if ex, isEx := v.(*ssa.Extract); isEx && ex.Tuple == ssa.Value(icall) {
+				onlyInvoker = true
+			}
+			if onlyInvoker {
+				afterLook := false
+				for _, l := range dominatingLits(r.Block()) {
+					bin, isBin := l.V.(*ssa.BinOp)
+					if !isBin || (bin.Op != token.EQL && bin.Op != token.NEQ) {
+						continue
+					}
+					var other ssa.Value
+					if sx.IsNil(bin.Y) {
+						other = bin.X
+					} else if sx.IsNil(bin.X) {
+						other = bin.Y
+					}
+					if other == nil || !derivesFromValue(other, dec, 0) {
+						continue
+					}
+					if (bin.Op == token.NEQ && l.Neg) || (bin.Op == token.EQL && !l.Neg) {
+						afterLook = true
+					}
+				}
+				c.Check(afterLook, "client: pass-through of the invoker's error", r.Pos(), "only where nothing was decoded (decoded == nil)",
+					"the invoker's error is returned on a path that does not depend on what the details held (e.g. an early return for some status codes): an encoded error attached by the server is ignored there")
+			}
+		}
 		c.Check(okAll, "client: returned error", r.Pos(), "either the decoded error or the invoker's error value itself",
 			"the client returns something other than the decoded error or the invoker's own error (e.g. a status rebuilt from it): pass-through errors change type/identity")
 	}
